@@ -1,0 +1,22 @@
+//go:build verif
+
+package aquahash
+
+import (
+	"math/big"
+
+	"gitlab.com/aquachain/aquachain/core/state"
+	"gitlab.com/aquachain/aquachain/core/types"
+	"gitlab.com/aquachain/aquachain/params"
+)
+
+// VerifAccumulateRewards exposes the unexported accumulateRewards (add-only, verification builds only).
+func VerifAccumulateRewards(config *params.ChainConfig, st *state.StateDB, header *types.Header, uncles []*types.Header) {
+	accumulateRewards(config, st, header, uncles)
+}
+
+// VerifRewardDivisors returns copies of the unexported divisors used by accumulateRewards
+// (uncle reward denominator big8, nephew reward denominator big32).
+func VerifRewardDivisors() (uncleDiv, nephewDiv *big.Int) {
+	return new(big.Int).Set(big8), new(big.Int).Set(big32)
+}
